@@ -49,6 +49,8 @@ type Piece struct {
 	Rotate bool `json:"rotate,omitempty"`
 	// Parts: texts of a "multi" piece: one Render call whose snippet yields the parts as separate fragments
 	Parts []string `json:"parts,omitempty"`
+	// Unused: references bound to arguments U0, U1, ... of a t piece that its text never mentions
+	Unused []string `json:"unused,omitempty"`
 }
 
 type DeferAction struct {
@@ -293,6 +295,9 @@ func render(c gengo.Context, pieces []Piece, gen, typ string, st *state, into *s
 			}
 			for i, r := range refs {
 				args[fmt.Sprintf("R%d", i)] = snippet.ID(r)
+			}
+			for i, r := range p.Unused {
+				args[fmt.Sprintf("U%d", i)] = snippet.ID(r)
 			}
 			sn = snippet.T(text, args)
 		case "docforeign":
